@@ -46,6 +46,13 @@ const prop = "C08"
 
 const (
 	maxAddrs = 6
+	// one more account, outside the universe the tape draws from: every commit that
+	// changes the state also raises its nonce to a number never used before in the
+	// history (what block rewards and sender nonces do on a chain), so that a state
+	// root is never produced twice. The snapshot tree is keyed by state root and is
+	// not meant to see a root again (see the report of this engine).
+	cb   = maxAddrs
+	nAcc = maxAddrs + 1
 	nSlots   = 4
 	maxDepth = 6
 )
@@ -53,8 +60,8 @@ const (
 // ---------------- fixed universe ----------------
 
 var (
-	addrs     [maxAddrs]common.Address
-	addrHash  [maxAddrs]common.Hash
+	addrs     [nAcc]common.Address
+	addrHash  [nAcc]common.Hash
 	slots     [nSlots]common.Hash
 	slotHash  [nSlots]common.Hash
 	vals      [5]common.Hash
@@ -144,14 +151,14 @@ type mlog struct {
 // mstate is everything a revert has to restore. All fields are values (arrays),
 // immutable pointers (balance) or a slice that clone() copies.
 type mstate struct {
-	exists    [maxAddrs]bool
-	acct      [maxAddrs]macct
-	touched   [maxAddrs]bool // has a surviving change in the current transaction
+	exists    [nAcc]bool
+	acct      [nAcc]macct
+	touched   [nAcc]bool // has a surviving change in the current transaction
 	refund    uint64
 	logs      []mlog
-	alAddr    [maxAddrs]bool
-	alSlot    [maxAddrs][nSlots]bool
-	transient [maxAddrs][nSlots]int
+	alAddr    [nAcc]bool
+	alSlot    [nAcc][nSlots]bool
+	transient [nAcc][nSlots]int
 }
 
 func (m *mstate) clone() mstate {
@@ -325,7 +332,7 @@ func (m *mstate) finalise(del bool) {
 		}
 		ac.committed = ac.storage
 	}
-	m.touched = [maxAddrs]bool{}
+	m.touched = [nAcc]bool{}
 	m.refund = 0
 }
 
@@ -377,7 +384,10 @@ func (m *mstate) root() common.Hash {
 
 func (m *mstate) describe(n int) string {
 	var b strings.Builder
-	for a := 0; a < n; a++ {
+	for a := 0; a < nAcc; a++ {
+		if a >= n && a != cb {
+			continue
+		}
 		if !m.exists[a] {
 			fmt.Fprintf(&b, "a%d:- ", a)
 			continue
@@ -597,6 +607,12 @@ type incarnation struct {
 	kv         *gatedb
 	tree       *snapshot.Tree
 	journalled bool // Journal aborted the generator for good
+	// collided: a commit produced a state root that already had a layer in the tree
+	// (the state went back to an earlier content). The tree is keyed by root, the older
+	// layer is no longer reachable through it and the bookkeeping of Cap (children and
+	// stale layers are found by root) is off from here on. Cannot happen on a chain
+	// (nonces, rewards); the engine stops flattening such a tree by hand.
+	collided bool
 }
 
 type node struct {
@@ -700,6 +716,7 @@ type runner struct {
 	genAlive bool // a generator may be waiting at the gate
 	genWork  int  // store accesses granted to generators
 	blockNos uint64
+	blockCtr uint64 // nonce of the extra account, raised by every commit
 	pace     int  // how often the tape lets the generator run
 
 	reverts, commits, undone int
@@ -712,7 +729,12 @@ func (r *runner) step(f string, a ...interface{}) {
 	}
 	r.res.Tracef("%s", s)
 	r.h.Add(s)
+	if streamTrace {
+		fmt.Fprintln(os.Stderr, s)
+	}
 }
+
+var streamTrace = os.Getenv("VERIF_STATESIM_DUMP") == "2"
 
 func firstLine(s string) string {
 	if i := strings.IndexByte(s, '\n'); i >= 0 {
@@ -886,10 +908,11 @@ func (r *runner) check(h *handle, after string, only []int) bool {
 	ok := r.guard("getters after "+after, func() {
 		list := only
 		if list == nil {
-			list = make([]int, r.n)
+			list = make([]int, r.n, r.n+1)
 			for i := range list {
 				list[i] = i
 			}
+			list = append(list, cb)
 		}
 		for _, a := range list {
 			ad := addrs[a]
@@ -1096,14 +1119,36 @@ func (r *runner) revert(h *handle, idx int) bool {
 // boundary ends the current transaction with Finalise / IntermediateRoot /
 // Commit, compares roots and starts the next transaction.
 func (r *runner) boundary(h *handle, k opKind, del bool) bool {
+	if k == opCommit {
+		// the "block": unless the commit would leave the state as it was (and the tape
+		// wants to see exactly that), the nonce of the extra account moves on
+		pm := h.m.clone()
+		pm.finalise(del)
+		if pm.root() != h.lastRoot || r.tape.Chance(1, 2) {
+			r.blockCtr++
+			if !r.txOp(h, rop{k: opNonce, a: cb, n: r.blockCtr}) {
+				return false
+			}
+		} else {
+			r.res.Probe("commit-without-change")
+		}
+	}
 	r.stepNo++
 	r.res.Steps++
 	o := rop{k: k, del: del}
 	var root common.Hash
 	var err error
 	run := r.guard
+	had := map[common.Hash]bool{}
 	if k == opCommit {
 		run = r.call
+		if r.node.tree != nil {
+			for _, rt := range r.order {
+				if rt != h.lastRoot && r.node.tree.Snapshot(rt) != nil {
+					had[rt] = true
+				}
+			}
+		}
 	}
 	if !run(opNames[k], func() { _, root, err = applyImpl(h.sdb, o) }) {
 		return false
@@ -1141,6 +1186,10 @@ func (r *runner) boundary(h *handle, k opKind, del bool) bool {
 	}
 	if k == opCommit {
 		r.commits++
+		if had[root] && !r.node.cur.collided {
+			r.node.cur.collided = true
+			r.res.Probe("state-root-revisited-in-snapshot-tree")
+		}
 		h.lastRoot = root
 		rr, rerr := common.Hash{}, error(nil)
 		ops := append([]rop(nil), h.ops...)
@@ -1192,7 +1241,10 @@ func (r *runner) snapCheck(root common.Hash, after string) bool {
 			return
 		}
 		r.res.Probe("snapshot-layer-read")
-		for a := 0; a < r.n && v == nil; a++ {
+		for a := 0; a < nAcc && v == nil; a++ {
+			if a >= r.n && a != cb {
+				continue
+			}
 			acc, err := layer.Account(addrHash[a])
 			if err != nil {
 				if errors.Is(err, snapshot.ErrSnapshotStale) || errors.Is(err, snapshot.ErrNotCoveredYet) {
@@ -1549,16 +1601,22 @@ func (r *runner) run(opt core.Options) {
 				return
 			}
 		}
-		if nd.tree.Snapshot(last) != nil {
+		if nd.tree.Snapshot(last) != nil && !nd.tree.VerifLinksToStale(last) {
 			var verr error
 			if !r.call("snapshot Verify", func() { verr = nd.tree.Verify(last) }) {
 				return
 			}
-			if verr != nil {
+			if errors.Is(verr, snapshot.ErrNotConstructed) {
+				// the generator stalled: the trie under the disk layer did not survive a restart
+				// ("missing trie"), it waits for the next flatten. Reads fall back to the trie.
+				res.Probe("snapshot-generator-stalled")
+			} else if verr != nil {
 				res.Violate(prop, "snapshot-verify", "snapshot tree content does not hash to the committed root at the end of the history", verr.Error())
 				return
 			}
-			res.Probe("snapshot-verified")
+			if verr == nil {
+				res.Probe("snapshot-verified")
+			}
 		}
 	}
 	res.NonTrivial = r.undone > 0 && r.commits > 0 && res.Steps >= 10
@@ -1754,6 +1812,10 @@ func (r *runner) capStep() {
 	layers := t.Draw(3)
 	var err error
 	gen := r.async && r.generating()
+	if r.node.cur.collided {
+		r.step("Cap(%x,%d) skipped: a state root was revisited", root[:6], layers)
+		return
+	}
 	// A fork whose lower layers were flattened by an earlier Cap on a sibling is dead:
 	// Cap asserts on it ("parent diff layer is stale"). Not a legal call, not made.
 	if r.node.tree.VerifLinksToStale(root) {
@@ -1808,7 +1870,13 @@ func (r *runner) restartStep(useSnaps bool) {
 		if nd.tree != nil {
 			var err error
 			var base common.Hash
-			if nd.tree.Snapshot(target) != nil {
+			if nd.tree.Snapshot(target) != nil && nd.tree.VerifLinksToStale(target) {
+				// the head sits on a fork whose lower layers were flattened away by a Cap on a
+				// sibling: Journal refuses (ErrSnapshotStale), the node logs that and shuts
+				// down without a journal; the snapshot is rebuilt at the next start
+				r.step("no snapshot journal: head is on a dead fork")
+				r.res.Probe("snapshot-dead-fork")
+			} else if nd.tree.Snapshot(target) != nil {
 				nd.cur.journalled = true
 				if !r.call("snapshot Journal", func() { base, err = nd.tree.Journal(target) }) {
 					return
